@@ -1293,7 +1293,10 @@ contract(
 
 # ===================================================================== C14  identifiers are found again
 _C14_ALPHABET = ["a", " ", '"', "'", "&", "<", "]", "[", "é", "="]
-_C14_EXTRA = ['zz" or "1"="1', "zz' or '1'='1", 'a"]|//*[@x="', 'say "hi"', "it's", '"\'', "x&amp;y", "a<b>c"]
+_C14_EXTRA = ['zz" or "1"="1', "zz' or '1'='1", 'a"]|//*[@x="', 'say "hi"', "it's", '"\'', "x&amp;y", "a<b>c",
+              # identifiers that look like pieces of the queries built around them (tag / attribute name fragments)
+              "chapter-start", "x-end", "-start", "mark-start-2", "start", "a-decl", "text:name", "@text:name", "//", "*",
+              "..", "name", "reference-mark", "x|y", "a and b", "1", "0", "true", "last()"]
 
 
 def _plain_container(kind):
